@@ -116,8 +116,12 @@ class MExpander(Expander):
                 return a.times_scalar(b) if b.rank == 0 else b.times_scalar(a)
             # outer product a[:, None] * b[None, :]
             la, lb = ast.unparse(node.left), ast.unparse(node.right)
-            if la.endswith("[:, None]") and lb.endswith("[None, :]") and a.rank == 2 and b.rank == 2:
-                return M(ncf._mul(a.terms, b.terms), 2)
+            if a.rank == 2 and b.rank == 2:
+                # outer product of two vectors written with broadcasting: column (..[:, None]) times row (..[None, :])
+                if la.endswith("[:, None]") and lb.endswith("[None, :]"):
+                    return M(ncf._mul(a.terms, b.terms), 2)
+                if la.endswith("[None, :]") and lb.endswith("[:, None]"):
+                    return M(ncf._mul(b.terms, a.terms), 2)
             raise Unsupported(f"elementwise product `{ast.unparse(node)}` in matrix context")
         if isinstance(op, ast.Div):
             b = self.need_m(self.eval(node.right, env))
